@@ -36,7 +36,14 @@ WRoot(a)    == <<WSqrt(a[1]), WSqrt(a[2])>>
 \*      crpix   : <<Int, Int>>,   cd : <<<<Int,Int>>, <<Int,Int>>>>   (rows),
 \*      co      : Seq([ax : 1..2, j : Nat, p : Nat, q : Nat, val : Rat])  coefficients that differ from
 \*                the convention's defaults (PV: index j;  SIP: exponents p, q),
-\*      invkeys : BOOLEAN ]       (SIP: the optional AP_ORDER/BP_ORDER keywords are present)
+\*      invkeys : BOOLEAN,        (SIP: the optional AP_ORDER/BP_ORDER keywords are present)
+\*      ord     : <<Nat, Nat>>,   (SIP: the declared A_ORDER, B_ORDER - independent of each other, each at least the
+\*                                 degree of every coefficient of its axis;  <<0, 0>> otherwise)
+\*      iord    : <<Nat, Nat>>,   (SIP with invkeys: the declared AP_ORDER, BP_ORDER, independent as well)
+\*      pvsets  : <<Str, Str>> ]  (PV: which PVi_j keywords axis i writes besides PVi_1 and its chosen coefficients:
+\*                                 "all" | "deg2" | "deg1" | "one" - the two axes need not carry the same set)
+\* The declared orders and the set of explicitly written default-valued keywords are *representation*: World does
+\* not depend on them, so headers that differ only there are observationally equivalent (same class).
 
 \* the registered TPV table: PV1_j multiplies xi^e1 * eta^e2; PV2_j the same with xi, eta exchanged;
 \* j = 3, 11 are the radial terms r, r^3  (r = sqrt(xi^2 + eta^2))
@@ -90,7 +97,12 @@ World(h, pix, distort) ==
     ELSE Lin(h.cd, <<RAdd(d[1], SIPPoly(h, 1, d[1], d[2])), RAdd(d[2], SIPPoly(h, 2, d[1], d[2]))>>)
 
 IdentityCD == <<<<1, 0>>, <<0, 1>>>>
-TanRepHeader == [proj |-> "TAN", crpix |-> <<0, 0>>, cd |-> IdentityCD, co |-> <<>>, invkeys |-> TRUE]
+TanRepHeader == [proj |-> "TAN", crpix |-> <<0, 0>>, cd |-> IdentityCD, co |-> <<>>, invkeys |-> TRUE,
+                 ord |-> <<0, 0>>, iord |-> <<0, 0>>, pvsets |-> <<"all", "all">>]
+\* a well-formed header declares orders that cover its coefficients
+OrdersCover(h) == h.proj = "SIP" => \A k \in DOMAIN h.co : h.co[k].p + h.co[k].q <= h.ord[h.co[k].ax]
+PVSetKeys(s) == CASE s = "all" -> {0, 1, 2, 4, 5, 6, 7, 8, 9, 10} [] s = "deg2" -> {0, 1, 2, 4, 5, 6}
+                  [] s = "deg1" -> {0, 1, 2} [] s = "one" -> {1}
 \* the pure-TAN member of the class of (h, pix): World(TanRepHeader, TanRepPix(..), _) = World(h, pix, distort)
 TanRepPix(h, pix, distort) == World(h, pix, distort)
 SameClass(h1, p1, d1, h2, p2, d2) == World(h1, p1, d1) = World(h2, p2, d2)
@@ -149,6 +161,7 @@ AnchorAllowed(crval, dir, theta) ==
 \* class record:  c = [h, pix, distort, rep],  o = [err, rel]    rel: "same" | "close" | "off"
 FailingClass(c, o) ==
     (IF c.rep # TanRepPix(c.h, c.pix, c.distort) THEN {"rep_not_in_class"} ELSE {}) \cup
+    (IF OrdersCover(c.h) THEN {} ELSE {"header_malformed"}) \cup
     (IF o.err # "none" THEN {"unexpected_error"}
      ELSE IF o.rel \in {"same", "close"} THEN {} ELSE {"class_mates_differ"})
 
@@ -181,6 +194,29 @@ FailingScalarArray(c, o) ==
     IF o.err # "none" THEN {"unexpected_error"}
     ELSE IF \A k \in DOMAIN o.rel : o.rel[k] \in {"same", "close"} THEN {} ELSE {"scalar_array_differ"}
 
+\* input representation: the same call with the same argument VALUES in another representation
+\*    c = [call, dtype, container, layout, hk],  o = [err, rel : Seq("same" | "close" | "off")]
+\* The value of an argument is the exact number its representation denotes (a float32 1500.75 is
+\* 1500.75); the reference is the call with python-float scalars of the same values on a fresh
+\* object.  "results are the same for scalar and array inputs" + class equivalence: every element
+\* must agree with the reference within the tolerance of the call.  The documentation promises
+\* "scalars or arrays": for python lists, 0-d and 2-d arrays the statement is silent on whether
+\* they are accepted - a rejection is allowed there, a wrong value is not.
+ReprDtypes     == {"pyfloat", "pyint", "f8", "f4", "i8", "i4", "i2", "u2"}
+ReprContainers == {"scalar", "array", "list", "zero_d", "two_d"}
+ReprLayouts    == {"contig", "strided", "reversed", "swapped", "readonly"}
+ReprWellFormed(c) ==
+    /\ c.dtype \in ReprDtypes /\ c.container \in ReprContainers /\ c.layout \in ReprLayouts
+    /\ (c.dtype \in {"pyfloat", "pyint"} => c.container \in {"scalar", "list"})
+    /\ (c.container = "list" => c.dtype \in {"pyfloat", "pyint"})
+    /\ (c.container # "array" => c.layout = "contig")
+ReprMayReject(c) == c.container \in {"list", "zero_d", "two_d"}
+FailingRepr(c, o) ==
+    IF ~ReprWellFormed(c) THEN {"repr_case_malformed"}
+    ELSE IF o.err # "none" THEN (IF ReprMayReject(c) THEN {} ELSE {"unexpected_error"})
+    ELSE IF Len(o.rel) > 0 /\ \A k \in DOMAIN o.rel : o.rel[k] \in {"same", "close"} THEN {}
+    ELSE {"representation_changes_result"}
+
 \* ---------------------------------------------------------------------------------
 \* 4. the call-history machine (property level).  A call is one of CallNames; its arguments are fixed
 \*    by its position in the sequence (the harness uses a different pixel / sky target at each
@@ -211,5 +247,6 @@ Failing(r) ==
       [] r.kind = "roundtrip" -> FailingRoundTrip(r.c, r.o)
       [] r.kind = "scalar"    -> FailingScalarArray(r.c, r.o)
       [] r.kind = "history"   -> FailingHistory(r.c, r.o)
+      [] r.kind = "repr"      -> FailingRepr(r.c, r.o)
       [] OTHER                -> {"unknown_record_kind"}
 =============================================================================
